@@ -19,5 +19,15 @@ claim("C17", "sweep",
       "All 2^16 colours (pack/unpack, luminosity) and all 2^24 channel triples are enumerated; MulDiv is compared with min(31,floor(ch*m/d)) for every single-channel colour x all 256x255 ratios in quick and for all 2^16 colours x 256 x 255 in thorough (exhaustive), with identity / monotonicity / bit-15 relations checked independently of the reference. For a pure function on a finite domain complete enumeration is as strong as testing gets.",
       "Trusted: the 32-bit reference arithmetic in the harness (10 lines) transcribed from the property statement; divisor 0 is outside the domain.",
       "DESIGN.md section 3 C17")
+claim("C04", "sweep",
+      "exhaustive enumeration of both address spaces with a round-trip oracle, plus rapid sampling",
+      "For each of the 4 mappers all 2^24 bus addresses are pushed through bus->pak->bus->pak (must return to the same pak cell) and all 2^24 pak addresses through pak->bus->pak (must stay in the same memory class at the same offset in its 8 KiB page). The domain is finite and is enumerated completely on every run, so within the stated reading of 'class' and 'page' the verdict is exact.",
+      "Trusted: class windows as given in the property statement (WRAM mirrors $F70000+ count as WRAM).",
+      "DESIGN.md section 3 C04")
+claim("C05", "sweep",
+      "exhaustive enumeration against a window/error contract, table-free page-structure relations and a transcribed region table",
+      "All 2^24 bus and 2^24 pak addresses x 4 mappers are checked for: unmapped error identity and zero result, exactly-one class window, rejection of exactly $F00000-$F4FFFF, the console-owned regions common to all mappers, whole-8-KiB-page structure with preserved byte order in both directions, and agreement of class and linear position with a per-mapper region table transcribed as data from the documented layout. Complete enumeration of a finite domain.",
+      "Trusted: the hand-transcribed region tables (they agreed with the unchanged tree on all 4 x 2^24 addresses, which cross-validates the transcription).",
+      "DESIGN.md section 3 C05")
 for e in ENGINES:
     e["serves_properties"] = sorted(k for k, v in CLAIMED.items() if v["engine"] == e["name"])
